@@ -60,8 +60,16 @@ def run_history(case, override_idx=None):
         model = [Fraction(v, 2) if s_ == "F" else v for v, s_ in zip(model, case["mask"])]
     arr = mk_array(ns, shape, case["contents"], case["mask"], case.get("same_rows", ()))
     info = {"secret_reads": 0, "write_then_other_read": False, "last_write": None, "oob": 0}
+    kept = []      # (step, row read at a secret index, its values at that moment): a row that was read is a value
     for step, op in enumerate(case["ops"]):
         kind, idx, sec, wval, wsec = op
+        # (kept rows are looked at only at the very end: looking earlier could itself fix their content)
+        if kind == "rowkeep":
+            if len(shape) != 2 or not 0 <= idx[0] < shape[0]:
+                continue
+            kept.append((step, arr[ns.rt.PrivVal(idx[0])], list(model[idx[0]])))
+            info["rowops"] = info.get("rowops", 0) + 1
+            continue
         if kind in ("rowcopy", "rowstore"):
             if len(shape) != 2 or not 0 <= idx[0] < shape[0]:
                 continue
@@ -151,6 +159,9 @@ def run_history(case, override_idx=None):
             # an out-of-range access must leave the array as it was
         if plain(ns, arr) != model:
             return "step %d (%s at %r): array is %r, model is %r" % (step, kind, idx, plain(ns, arr), model), info
+    for kstep, krow, ksnap in kept:
+        if plain(ns, krow) != ksnap:
+            return "the row read at step %d was %r then and is %r at the end (later writes to the matrix show through)" % (kstep, ksnap, plain(ns, krow)), info
     bad = r1cs.evaluate(rec.snapshot())
     if bad:
         return "constraint #%d violated by the recorded witness" % bad[0], info
@@ -188,7 +199,7 @@ def draw_history(draw):
             mask[i] = list(mask[j])
     ops = []
     for _ in range(draw(st.integers(1, 7))):
-        kind = draw(st.sampled_from(["r", "r", "w", "r", "w", "rowcopy", "rowstore"] if two and not same_rows else ["r", "r", "w"]))
+        kind = draw(st.sampled_from(["r", "r", "w", "r", "w", "rowcopy", "rowstore", "rowkeep", "w"] if two and not same_rows else ["r", "r", "w"]))
         nidx = (2 if kind.startswith("row") else draw(st.integers(1, 2))) if two else 1
         idx, sec = [], []
         for d in range(nidx):
